@@ -52,9 +52,9 @@ def r1(db, rep, trans):
     r = rep.rule("R1", "K4", "transfer function per Operation variant: Assign -> set_scalar(dst, eval(src) or Top) "
                  "with no error propagation; Load -> set_scalar(dst, Top); Store/Nop -> unchanged; Branch -> top(); "
                  "Intrinsic -> declared writes to Top, undeclared -> top()")
-    hb = db.hir[trans]
+    from armlib import main_match_in_unit
     rep.analysed(trans)
-    m = main_match(hb, OP)
+    m, hb = main_match_in_unit(db, db.hir[trans], OP)
     rep.anchor(m is not None, "match over Operation in trans")
     seen = set()
     for a in arm_table(m):
@@ -164,32 +164,54 @@ def r6(db, rep):
                     return b["res"]["local"]
         return None
 
+    def info(body_e, own, depth=0):
+        """(iterated map's owner, looked-up map's owner, comparison) of a pointwise-order loop / quantifier in body_e; the loop
+        may sit in a private helper that receives the two maps (owners are then mapped through the call's arguments)."""
+        loops = [x for x in walk(body_e) if x.get("k") == "Match" and x.get("src") == "For"]
+        it_owner = own(loops[0]["scrut"]) if loops else None
+        if it_owner is None:
+            quant = [x for x in walk(body_e) if x.get("k") == "MethodCall" and x.get("name") == "all"]
+            it_owner = own(quant[0]["recv"]) if quant else None
+        gets = [x for x in walk(body_e) if x.get("k") == "MethodCall" and x.get("name") == "get"]
+        get_owner = own(gets[0]["recv"]) if gets else None
+        op = None
+        for c in [x for x in walk(body_e) if x.get("k") == "Closure"]:
+            for x in walk(c["body"]):
+                if x.get("k") == "Binary" and x["op"] in ("Le", "Ge", "Lt", "Gt"):
+                    l_ = strip(x["a"])
+                    cparams = {p.get("name") for p in c.get("params", []) if p.get("k") == "Bind"}
+                    o = x["op"]
+                    if l_.get("k") == "Path" and l_.get("res", {}).get("local") in cparams:       # normalise to  iterated OP looked-up
+                        o = {"Le": "Ge", "Ge": "Le", "Lt": "Gt", "Gt": "Lt"}[o]
+                    op = o
+        if it_owner is None and get_owner is None and depth < 2:
+            for x in walk(body_e):
+                h = db.hir.get(callee(x) or "") if x.get("k") in ("Call", "MethodCall") else None
+                if h is None or not h.get("file", "").endswith("constants.rs"):
+                    continue
+                args = ([x["recv"]] if x.get("k") == "MethodCall" else []) + list(x["args"])
+                pn = [p_.get("name") for p_ in h.get("params", [])]
+                if len(pn) != len(args):
+                    continue
+                amap = {pn[i]: own(args[i]) for i in range(len(args))}
+
+                def own2(e, amap=amap):
+                    for y in walk(e):
+                        if y.get("k") == "Path" and y.get("res", {}).get("local") in amap and amap[y["res"]["local"]]:
+                            return amap[y["res"]["local"]]
+                    return None
+                sub = info(h["body"], own2, depth + 1)
+                if sub[0] is not None:
+                    return sub
+        return (it_owner, get_owner, op)
+
     got = {}
     for a in ms[0]["arms"]:
         names = {last_seg(pat_path(p) or "") for p in pat_leaves(a["pat"])}
         if names not in ({"Less"}, {"Greater"}):
             continue
         br = next(iter(names))
-        loops = [x for x in walk(a["body"]) if x.get("k") == "Match" and x.get("src") == "For"]
-        it_owner = owner(loops[0]["scrut"]) if loops else None
-        if it_owner is None:
-            # the same loop written with an iterator quantifier: `X.constants.iter().all(|(k, v)| ..)`
-            quant = [x for x in walk(a["body"]) if x.get("k") == "MethodCall" and x.get("name") == "all"]
-            it_owner = owner(quant[0]["recv"]) if quant else None
-        gets = [x for x in walk(a["body"]) if x.get("k") == "MethodCall" and x.get("name") == "get"]
-        get_owner = owner(gets[0]["recv"]) if gets else None
-        cmps = [x for x in walk(a["body"]) if x.get("k") == "Closure"]
-        op = None
-        for c in cmps:
-            for x in walk(c["body"]):
-                if x.get("k") == "Binary" and x["op"] in ("Le", "Ge", "Lt", "Gt"):
-                    l_, r_ = strip(x["a"]), strip(x["b"])
-                    cparams = {p.get("name") for p in c.get("params", []) if p.get("k") == "Bind"}
-                    lhs_is_closure_param = l_.get("k") == "Path" and l_.get("res", {}).get("local") in cparams
-                    o = x["op"]
-                    if lhs_is_closure_param:       # normalise to  iterated-entry  OP  looked-up-entry
-                        o = {"Le": "Ge", "Ge": "Le", "Lt": "Gt", "Gt": "Lt"}[o]
-                    op = o
+        it_owner, get_owner, op = info(a["body"], owner)
         rets = {last_seg(x.get("res", {}).get("def", "") or "") for x in walk(a["body"]) if x.get("k") == "Path"} & {"Less", "Greater", "Equal"}
         got[br] = (it_owner, get_owner, op, rets)
     want = {"Less": ("self", "other", "Le", {"Less"}), "Greater": ("other", "self", "Le", {"Greater"})}
